@@ -1,0 +1,46 @@
+//go:build verif
+
+package community
+
+// Machine-checked contracts for the verification machinery in /verif (govc).
+// This file contains comments only and is compiled only with -tags verif.
+
+// ---------------------------------------------------------------------------
+// Fermat factorisation (C16). a0 = ceil-ish start value isqrt(n)+1; round k tests whether
+// (a0+k)^2 - n is a perfect square.
+
+//@ spec a0(n int) int = isqrt(n) + 1
+//@ spec roundHits(n int, k int) bool = isSq(sqf(a0(n) + k) - n)
+
+//@ func checkPrimeFactorsTooClose [C16]
+//@   requires n != nil && val(n) > 0
+//@   nopanic
+//@   assigns \fresh
+//@   loop 1 invariant a != nil && b2 != nil && bb != nil && one != nil && fresh(a) && fresh(b2) && fresh(bb) && fresh(one)
+//@   loop 1 invariant a != b2 && a != bb && a != one && b2 != bb && b2 != one && bb != one && val(one) == 1
+//@   loop 1 invariant 0 <= i && val(a) == a0(val(n)) + i && val(b2) == val(a) * val(a) - val(n) && val(b2) >= 0 && val(a) >= 1
+//@   loop 1 invariant forall(j, 0, i, !roundHits(val(n), j))
+//@   atcall fmt.Errorf 1 val(p) * val(q) == val(n) && val(p) >= val(q)
+//@   atcall (*math/big.Int).Add 2 !roundHits(val(n), i)
+//@   ensures (result == nil) == forall(j, 0, rounds, !roundHits(val(n), j))
+
+//@ func (*fermatFactorization).Execute [C16]
+//@   requires c != nil && l != nil && util.hasRSAKey(c) && util.modulus(c) > 0
+//@   nopanic
+//@   assigns \fresh
+//@   ensures result != nil && fresh(result) && (result.Status == lint.Error || result.Status == lint.Pass)
+//@   ensures (result.Status == lint.Error) == exists(j, 0, l.Rounds, roundHits(util.modulus(c), j))
+
+// A product of two distinct odd primes (any odd p > q >= 3 will do) is found in round
+// (p+q)/2 - a0(pq): "close enough to be found within the configured rounds" means that
+// this round number is below Rounds.
+//@ lemma sq_lt(x int, y int) [C16]: implies(x >= 0 && y >= 0 && x * x < y * y, x < y)
+//@ lemma sq_root(r int, b int) [C16]: implies(r >= 0 && b >= 0 && r * r <= b * b && b * b < (r + 1) * (r + 1), r == b)
+//@ lemma half_sq(p int, q int) [C16]: implies(p > q && q >= 3 && p % 2 == 1 && q % 2 == 1,
+//@      ((p + q) / 2) * ((p + q) / 2) - p * q == ((p - q) / 2) * ((p - q) / 2) && (p - q) / 2 >= 1 && (p + q) / 2 >= 1)
+//@ lemma fermat_finds(p int, q int) [C16]:
+//@      given(half_sq(p, q),
+//@      given(sq_lt(isqrt(p * q), (p + q) / 2),
+//@      given(sq_root(isqrt(sqf((p + q) / 2) - p * q), (p - q) / 2),
+//@      implies(p > q && q >= 3 && p % 2 == 1 && q % 2 == 1,
+//@              (p + q) / 2 >= a0(p * q) && roundHits(p * q, (p + q) / 2 - a0(p * q))))))
